@@ -111,4 +111,31 @@ theorem finished_never_decrease {E : Type} {g : Graph} (gok : GraphOK g) (a : Ru
 example : (Run.build Ex.g0 Ex.a0 Ex.c0 ()).1.trace.any (fun ev => ev == .update [0, 0, 0, 0, 2, 0]) = false ∧
     (Run.build Ex.g0 Ex.a0 Ex.c0 ()).1.trace.any (fun ev => ev == .update [0, 0, 0, 1, 1, 0]) = true := by decide
 
+/-! ### The final summary -/
+
+/-- **`ran N tasks`**: when `run::build` reports success with `N` tasks, `N` is exactly the number
+    of commands that finished successfully in this `Work`, no command failed and none was
+    interrupted; `no work to do` (N = 0) is printed exactly when no command succeeded. -/
+theorem ran_n_tasks {E : Type} {g : Graph} (gok : GraphOK g) (a : Run.Args) (hk : a.failuresLeft ≠ some 0)
+    (c : Choices E) (e : E) (n : Nat) (h : (Run.build g a c e).2.2 = .done n) :
+    n = succs (sf (Run.build g a c e).1.trace) ∧ fails (sf (Run.build g a c e).1.trace) = 0 ∧
+    intr (sf (Run.build g a c e).1.trace) = false :=
+  (Run.build_acct gok a hk c e).2.1 n h
+
+theorem ran_n_tasks_reloaded {E : Type} {g : Graph} (gok : GraphOK g) (a : Run.Args)
+    (hk : a.failuresLeft ≠ some 0) (c : Choices E) (e : E) (n0 n : Nat)
+    (h : (Run.buildReloaded g a c e n0).2.2 = .done n) :
+    n = n0 + succs (sf (Run.buildReloaded g a c e n0).1.trace) :=
+  ((Run.buildReloaded_acct gok a hk c e n0).2 n h).1
+
+/-- A reload happens exactly after a manifest phase in which `n > 0` commands succeeded. -/
+theorem reload_after_commands {E : Type} {g : Graph} (gok : GraphOK g) (a : Run.Args)
+    (hk : a.failuresLeft ≠ some 0) (c : Choices E) (e : E) (n : Nat)
+    (h : (Run.build g a c e).2.2 = .reload n) :
+    n = succs (sf (Run.build g a c e).1.trace) ∧ n ≠ 0 :=
+  (Run.build_acct gok a hk c e).2.2 n h
+
+example : succs (sf (Run.build Ex.g0 Ex.a0 Ex.c0 ()).1.trace) = 2 := by decide
+example : budgetTrace Ex.a0.failuresLeft (Run.build Ex.g0 Ex.a0 Ex.c1 ()).1.trace = true := by decide
+
 end N2V.C19
